@@ -24,6 +24,10 @@ class UserExc(Exception):
     pass
 
 
+class UserBaseExc(BaseException):
+    """What KeyboardInterrupt / SystemExit / GeneratorExit / a test framework's Skipped are: not an Exception."""
+
+
 # ------------------------------------------------------------------------------------------------
 # tree enumeration.  item = ("op",) | ("raise",) | ("valerr",) | ("try", items) | ("region", c, items)
 
@@ -121,6 +125,10 @@ class Exec:
         self.gcache = {}
         if self.sameobj:
             real = "guarded"
+        # "-bexc": the user's exception is a BaseException that is not an Exception
+        self.bexc = real.endswith("-bexc")
+        if self.bexc:
+            real = real[:-5]
         self.real = real
         self.report = report
         self.model = []          # values of the active secret conditions
@@ -190,7 +198,7 @@ class Exec:
         if kind == "op":
             self.check_state("op")
         elif kind == "raise":
-            raise UserExc()
+            raise (UserBaseExc() if self.bexc else UserExc())
         elif kind == "valerr":
             # raises because of its operands when checking is on; proceeds under a false guard
             rt.PrivVal(3).assert_lt(rt.PrivVal(2))
@@ -200,7 +208,7 @@ class Exec:
             depth = len(self.model)
             try:
                 self.run_items(it[1])
-            except Exception:  # noqa: BLE001 - the user's try/except
+            except (Exception, UserBaseExc):  # noqa: BLE001 - the user's try/except
                 del self.model[depth:]
             if H.triple() != before or any(a is not b for a, b in zip(H.triple(), before)):
                 self.report("state-changed-across-caught-exception", "try", "triple after try/except differs")
@@ -269,7 +277,7 @@ class Exec:
                 if self.real == "elif" and c not in ("b1", "b0"):
                     return          # _elif combines its condition with the negated if-condition: boolean-typed only
                 self.block(cond, c, body)
-        except Exception as ex:  # noqa: BLE001
+        except (Exception, UserBaseExc) as ex:  # noqa: BLE001
             del self.model[depth:]
             now = H.triple()
             if any(a is not b for a, b in zip(now, before)):
@@ -355,7 +363,7 @@ def run_tree(tree, real, p):
         ex.ctx = H.branching.BranchingValues()
     try:
         ex.run_items(tree)
-    except UserExc:
+    except (UserExc, UserBaseExc):
         pass
     except Exception:  # noqa: BLE001 - value errors propagating to the top are part of the history
         pass
@@ -447,8 +455,10 @@ def _task(t):
         st["histories"] += 1
         kinds = region_conds(tree)
         repeated = len(kinds) != len(set(kinds))
-        for real in REALS + ["else"] + (["guarded-shared", "if-shared", "ite-then-shared", "guarded-sameobj-shared"] if repeated else []):
-            if not applicable(tree, real[:-7] if real.endswith("-shared") else real):
+        has_raise = "raise" in tree_str(tree)
+        for real in REALS + ["else"] + (["guarded-shared", "if-shared", "ite-then-shared", "guarded-sameobj-shared"] if repeated else []) + \
+                (["guarded-bexc", "ite-then-bexc", "ite-else-bexc"] if has_raise else []):
+            if not applicable(tree, real[:-7] if real.endswith("-shared") else (real[:-5] if real.endswith("-bexc") else real)):
                 continue
             vs, ev, sts, skipped = run_tree(tree, real, p)
             if skipped:
@@ -472,7 +482,7 @@ def _task(t):
 # (a variable introduced in one arm only, a conditional write to an undefined variable, ...) is an exit path too
 
 MISUSE = ["new-var-if-not-else", "new-var-no-else", "spurious-var-in-else", "new-var-in-while", "new-var-in-for",
-          "new-var-if-not-elif"]
+          "new-var-if-not-elif", "uncopyable-var-if", "uncopyable-var-while", "uncopyable-var-for"]
 OUTERS = ["none", "guarded-b1", "guarded-b0", "if-b1", "if-b0", "while-b1"]
 
 
@@ -517,6 +527,21 @@ def run_misuse(kind, outer, cval, p):
                 Br._while(c, ctx=ctx)
                 ctx.t = rt.PrivVal(5)
                 Br._endwhile(ctx=ctx)
+            elif kind.startswith("uncopyable-var"):
+                # the context holds a value that cannot be snapshotted (a generator): entering a block raises
+                # (TypeError from the snapshot) - and must leave the guard state as it was
+                ctx.g = (i for i in range(3))
+                try:
+                    if kind.endswith("-if"):
+                        Br._if(c, ctx=ctx)
+                    elif kind.endswith("-while"):
+                        Br._while(c, ctx=ctx)
+                    else:
+                        next(iter(Br._range(rt.PrivVal(cval), max=2, ctx=ctx)))
+                except TypeError as ex_:
+                    raise RuntimeError("snapshot failed: %s" % ex_)
+                finally:
+                    ctx.vals.pop("g", None)
             elif kind == "new-var-in-for":
                 for _i in Br._range(rt.PrivVal(cval), max=1, ctx=ctx):
                     ctx.t = rt.PrivVal(5)
